@@ -451,7 +451,11 @@ pub fn record_race(seed: u64, n: u64, out: &mut TraceOut) {
     }
     let mut all: Vec<(u64, Value)> = Vec::new();
     for h in handles {
-      all.extend(h.join().unwrap_or_else(|_| tool_error("race thread panicked")));
+      match h.join() {
+        Ok(evs) => all.extend(evs),
+        // a panic inside the store under a race is data: an event no specification step matches
+        Err(_) => all.push((u64::MAX, json!({"ev": "panic", "t": 0, "res": {"ok": false}}))),
+      }
     }
     all.sort_by_key(|(c, _)| *c);
     let fin = match block_on(store.get_key_id(&digest(1))) {
